@@ -8,6 +8,39 @@ from .terms import (And, Or, Not, Implies, Ite, Eq, asV, asB, asI, asS, mkB, mkI
 from .values import (Val, PyC, PyList, SymObj, Closure, BM, Exc, OutOfSubset, fresh_name, ClassTable)
 
 
+def split_and(t):
+    """Top-level conjuncts of an (and ...) term (keeps relevance slicing effective)."""
+    if not t.startswith("(and "):
+        return [t]
+    out, depth, cur = [], 0, []
+    body = t[5:-1]
+    i = 0
+    in_str = False
+    while i < len(body):
+        ch = body[i]
+        if ch == '"':
+            in_str = not in_str
+        if not in_str:
+            if ch == "(":
+                depth += 1
+            elif ch == ")":
+                depth -= 1
+            elif ch == " " and depth == 0:
+                if cur:
+                    out.append("".join(cur))
+                    cur = []
+                i += 1
+                continue
+        cur.append(ch)
+        i += 1
+    if cur:
+        out.append("".join(cur))
+    res = []
+    for p in out:
+        res.extend(split_and(p))
+    return [p for p in res if p != TRUE]
+
+
 class St:
     __slots__ = ("env", "pc", "ghost", "facts")
 
@@ -21,10 +54,12 @@ class St:
         return St(dict(self.env), self.pc, self.ghost, self.facts)
 
     def assume(self, t, fact=False):
-        if t != TRUE:
-            self.pc = self.pc + (t,)
-            if fact:
-                self.facts = self.facts | {t}
+        if t == TRUE:
+            return self
+        parts = split_and(t)
+        self.pc = self.pc + tuple(parts)
+        if fact:
+            self.facts = self.facts | set(parts)
         return self
 
 
